@@ -32,7 +32,7 @@ pub fn alphabet(full: bool) -> Vec<DOp> {
     v.push(DOp::Deflate { flush: 4, inn: 2000, room: 520 });
     v.extend([DOp::Params(9, 0), DOp::Params(0, 2), DOp::Tune(4, 4, 8, 4), DOp::Prime(3, 5), DOp::Prime(6, 5), DOp::Prime(16, 0xffff), DOp::SetDict(600), DOp::SetHeader(1), DOp::Pending, DOp::Reset, DOp::Copy, DOp::End]);
     if full {
-        v.extend([DOp::Prime(7, 0x55), DOp::Prime(32, -1), DOp::Prime(33, 0), DOp::Prime(-1, 0), DOp::SetDict(0), DOp::SetDict(3), DOp::SetHeader(0), DOp::Bound(1000), DOp::ResetKeep, DOp::CopyEndCopy, DOp::GetDict, DOp::Tune(0, 0, 0, 0), DOp::Tune(-1, 70000, 258, 65535)]);
+        v.extend([DOp::Prime(7, 0x55), DOp::Prime(32, -1), DOp::Prime(33, 0), DOp::Prime(-1, 0), DOp::SetDict(0), DOp::SetDict(3), DOp::SetHeader(0), DOp::SetHeader(2), DOp::Bound(1000), DOp::ResetKeep, DOp::CopyEndCopy, DOp::GetDict, DOp::Tune(0, 0, 0, 0), DOp::Tune(-1, 70000, 258, 65535)]);
     }
     v
 }
